@@ -225,6 +225,7 @@ func c20Eval(t tb, c c20Case) {
 		ctxSerial := map[string]map[string]int64{} // service -> ctx -> serial
 		fresh := map[string]map[int64]bool{}       // service -> serials returned by calls that must not share (non_shared; contextual without context)
 		ok := true
+		overridden := false
 		fail := func(key, what string) {
 			if ok {
 				ok = false
@@ -236,6 +237,7 @@ func c20Eval(t tb, c c20Case) {
 			switch op.Op {
 			case "new":
 				d = ref.NewDI(it.m.C, it.m.Script.Env)
+				overridden = false
 				sharedSerial = map[string]int64{}
 				ctxSerial = map[string]map[string]int64{}
 				fresh = map[string]map[int64]bool{}
@@ -249,6 +251,10 @@ func c20Eval(t tb, c c20Case) {
 						visit(op.Par[g][k], r.Par[g][k])
 					}
 				}
+			case "overrideParam", "overrideService":
+				// sequential prelude (before the goroutines are released): a placeholder gets a real definition
+				d.Exec(modelOp(op))
+				overridden = true
 			case "get", "param", "tagged", "getter", "must":
 				mop, svc := modelOp(op), op.ID
 				if op.Op == "getter" || op.Op == "must" {
@@ -275,7 +281,12 @@ func c20Eval(t tb, c c20Case) {
 				constructed := exp.V != nil && exp.V.O != nil && exp.V.O.ID != "" && !strings.HasPrefix(exp.V.O.ID, "global:")
 				if op.Op != "param" && op.Op != "tagged" && constructed && r.V != nil && r.V.O != nil && r.V.O.Serial != 0 && r.Err == "" {
 					serial := r.V.O.Serial
-					switch scopes[svc] {
+					scope := scopes[svc]
+					if overridden {
+						// a placeholder supplied at run time changes the scope of its dependants without a scope of their own
+						scope = d.EffectiveScope(svc)
+					}
+					switch scope {
 					case "shared":
 						if s, seen := sharedSerial[svc]; seen && s != serial {
 							fail("shared-constructed-twice", fmt.Sprintf("shared service %q was observed as two instances (serials %d and %d)", svc, s, serial))
@@ -353,10 +364,14 @@ func c20Eval(t tb, c c20Case) {
 // released together, each running a drawn sequence of reads.
 func drawConcurrentScript(rt *rapid.T, c cfg.Config) fx.Script {
 	var svcs, params, tags []string
+	var todoSvcs, todoParams []string
 	var getters [][2]string
 	seen := map[string]bool{}
 	for _, s := range c.Services {
 		svcs = append(svcs, s.Name)
+		if s.IsTodo() {
+			todoSvcs = append(todoSvcs, s.Name)
+		}
 		if s.Getter != nil && !s.IsTodo() && exportedName(*s.Getter) {
 			getters = append(getters, [2]string{*s.Getter, s.Name})
 		}
@@ -369,12 +384,28 @@ func drawConcurrentScript(rt *rapid.T, c cfg.Config) fx.Script {
 	}
 	for _, p := range c.Params {
 		params = append(params, p.Name)
+		if p.Val.IsStr() && strings.HasPrefix(p.Val.S, "%todo(") {
+			todoParams = append(todoParams, p.Name)
+		}
 	}
 	rounds := rapid.IntRange(1, 3).Draw(rt, "rounds")
 	sc := fx.Script{Procs: rapid.SampledFrom([]int{2, 16}).Draw(rt, "procs"), Timeout: 120, Env: scriptAll(c).Env}
 	for r := 0; r < rounds; r++ {
 		if r > 0 {
 			sc.Ops = append(sc.Ops, fx.Op{Op: "new"})
+		}
+		// placeholders are supplied before the goroutines are released (the documented workflow: build, override, use);
+		// each round draws its own subset, a placeholder service as a default-scope or as a contextual definition
+		for _, p := range todoParams {
+			if rapid.IntRange(0, 3).Draw(rt, "oparam") > 0 {
+				lit := rapid.SampledFrom([]fx.Lit{{K: "int", I: 41}, {K: "str", S: "over"}, {K: "bool", B: true}, {K: "float", F: 2.5}}).Draw(rt, "lit")
+				sc.Ops = append(sc.Ops, fx.Op{Op: "overrideParam", ID: p, Val: &lit})
+			}
+		}
+		for _, s := range todoSvcs {
+			if rapid.IntRange(0, 3).Draw(rt, "osvc") > 0 {
+				sc.Ops = append(sc.Ops, fx.Op{Op: "overrideService", ID: s, Val: &fx.Lit{K: rapid.SampledFrom([]string{"str", "ctx"}).Draw(rt, "oscope"), S: rapid.SampledFrom([]string{"m1", "m2"}).Draw(rt, "marker")}})
+			}
 		}
 		g := rapid.SampledFrom([]int{4, 16, 64}).Draw(rt, "goroutines")
 		par := fx.Op{Op: "par"}
@@ -484,8 +515,18 @@ func TestC20(t *testing.T) {
 		}
 		var c c20Case
 		for i := 0; i < batch; i++ {
-			conf, labels := gen.Valid(rt, opts)
+			o := opts
+			o.Todo = i%3 == 2 // every third configuration may hold placeholders, supplied before the concurrent phase
+			conf, labels := gen.Valid(rt, o)
 			m := c20Member{C: conf, Style: drawStyle(rt), Script: drawConcurrentScript(rt, conf), Labels: labels.List()}
+			for _, op := range m.Script.Ops {
+				if op.Op == "overrideService" || op.Op == "overrideParam" {
+					m.Labels = append(m.Labels, "prelude:"+op.Op)
+					if op.Val != nil && op.Val.K == "ctx" {
+						m.Labels = append(m.Labels, "prelude:placeholder-supplied-as-contextual")
+					}
+				}
+			}
 			if n := rapid.IntRange(1, 3).Draw(rt, "nfiles"); n > 1 {
 				m.Files = gen.Split(rt, conf, n)
 				m.Labels = append(m.Labels, fmt.Sprintf("files:%d", len(m.Files)))
